@@ -29,13 +29,13 @@ PRECONDITIONS = []
 FUNCTIONS = ["gffutils.create:create_db", "gffutils.create:_GFFDBCreator._update_relations", "gffutils.create:_GTFDBCreator._update_relations", "gffutils.iterators:DataIterator"]
 
 
-def _run(it, fmt, from_string, keep):
+def _run(it, fmt, from_string, keep, force=False):
     dialect = dict(constants.dialect, fmt=fmt)
 
     def features(n, line, k):
         f, _ = IM.sym_feature("F%d" % n, {"gene_id": [IM.sval("F%d.gene_id" % n)[0]], "transcript_id": [IM.sval("F%d.transcript_id" % n)[0]], "ID": [IM.sval("F%d.ID" % n)[0]]})
         return f
-    base = PL.run_create_db(it, "F" if fmt == "gtf" else "FF", 1, dialect=dialect, features=features, _keep_tempfiles=keep)
+    base = PL.run_create_db(it, "F" if fmt == "gtf" else "FF", 1, dialect=dialect, features=features, _keep_tempfiles=keep, **({"force": True} if force else {}))
     if not from_string:
         return base
 
@@ -103,14 +103,37 @@ def _native_tmp_replay1(fmt, from_string, keep, text):
         shutil.rmtree(d, ignore_errors=True)
 
 
+def _native_force_replay(fmt):
+    """a foreign intermediate file (another import in progress) in the shared temp dir must survive a force=True run"""
+    import tempfile, os, shutil
+    d = tempfile.mkdtemp()
+    old = tempfile.tempdir
+    tempfile.tempdir = d
+    try:
+        foreign = [os.path.join(d, "tmpq7x2k_.gffutils"), os.path.join(d, "unrelated.txt")]
+        for fn in foreign:
+            open(fn, "w").write("other process\n")
+        src = os.path.join(d, "in.txt")
+        open(src, "w").write(_GFF_TEXTS[0] if fmt == "gff3" else _GTF_TEXTS[0])
+        gffutils.create_db(src, os.path.join(d, "out.db"), force=True)
+        left = sorted(os.listdir(d))
+        exp = sorted(["in.txt", "out.db", "tmpq7x2k_.gffutils", "unrelated.txt"])
+        return {"inputs": {"fmt": fmt, "force": True, "temp dir before": ["tmpq7x2k_.gffutils", "unrelated.txt"]}, "expected": exp, "observed": left, "violates": left != exp}
+    finally:
+        tempfile.tempdir = old
+        shutil.rmtree(d, ignore_errors=True)
+
+
 def unit_footprint(U):
     for fmt in ("gff3", "gtf"):
-        for from_string in (False, True):
+        for from_string, force in ((False, False), (True, False), (False, True)):
             for keep in (False, True):
+                if force and keep:
+                    continue
                 it = Interp()
-                run = _run(it, fmt, from_string, keep)
-                base = "C20.create_db[%s,%s,keep=%s]" % (fmt, "from_string" if from_string else "file", keep)
-                replay = lambda m, fmt=fmt, from_string=from_string, keep=keep: _native_tmp_replay(fmt, from_string, keep)
+                run = _run(it, fmt, from_string, keep, force=force)
+                base = "C20.create_db[%s,%s,keep=%s%s]" % (fmt, "from_string" if from_string else "file", keep, ",force" if force else "")
+                replay = (lambda m, fmt=fmt: _native_force_replay(fmt)) if force else (lambda m, fmt=fmt, from_string=from_string, keep=keep: _native_tmp_replay(fmt, from_string, keep))
                 for p in U.explore(run, it):
                     if p.kind != "return":
                         U.prove(base + ".noraise#p%d" % p.index, "create_db raises nothing (got %r)" % (p.value,), p.pc, z3.BoolVal(False), {}, replay=replay)
